@@ -18,10 +18,10 @@ from collections import OrderedDict
 from harness import tlc, common, joinlib
 from harness.core import Check
 from harness.concretize import PROFILES
-from harness.probe import ProbeTable
+from harness.probe import ProbeTable, InjectedFailure
 
 PID = 'C11'
-ACTIONS = ['Edit', 'FullPass', 'PartialPass']
+ACTIONS = ['Edit', 'FullPass', 'PartialPass', 'FailPass']
 
 
 # ---- (a) differential over strategies --------------------------------------------------------------
@@ -159,6 +159,35 @@ def check_differential(chk, gens, profiles, full, rng):
                 'inputs': _inputs('join', gens['join'][len(gens['join']) // 2], PROFILES['ints'], 0)})
 
 
+def check_scale(chk, rng):
+    """The same differential on LARGE inputs: hundreds of rows with many duplicate keys, buffersizes that spill into
+    more than 64 / 128 chunk files, and chunks of more than 256 rows (batch / fan-in thresholds inside the sort)."""
+    import petl as etl
+    ops = [o for o in _ops() if o['kind'] in ('join', 'setop', 'dedup', 'group', 'group2')]
+    for n, bsizes in ((343, (3, 5)), (700, (300, 2)), (130, (1,))):
+        keys = [rng.choice([None, 1, 2, 3, 'x', 2.5]) for _ in range(n)]
+        base_tabs = {
+            'join': [[['k', 'a']] + [[k, i] for i, k in enumerate(keys)], [['k', 'b']] + [[k, -i] for i, k in enumerate(keys[: n // 7])]],
+            'setop': [[['f', 'g']] + [[k, i % 3] for i, k in enumerate(keys)], [['f', 'g']] + [[k, i % 2] for i, k in enumerate(keys[: n // 2])]],
+            'dedup': [[['k', 'v']] + [[k, i % 4] for i, k in enumerate(keys)]],
+            'group': [[['k', 'j', 'n']] + [[k, i % 2, i] for i, k in enumerate(keys)]],
+        }
+        base_tabs['group2'] = [[['k', 'j', 'n']] + base_tabs['group'][0][1: n // 2], [['k', 'j', 'n']] + base_tabs['group'][0][n // 2:]]
+        for op in ops:
+            if op['kind'] == 'join' and n > 400:
+                continue
+            tables = base_tabs[op['kind']]
+            with common.private_tmp() as tmp:
+                for B in bsizes:
+                    msg = run_differential(op, tables, {'buffersize': B, 'tempdir': tmp})
+                    chk.count(('scale', op['name'], n, B))
+                    chk.replayed += 1
+                    if msg:
+                        chk.violation({'op': op['name'], 'strategy': ['buffersize'], 'scale': n},
+                                      '%s on %d rows with buffersize=%d: %s' % (op['name'], n, B, msg[:600]),
+                                      {'kind': 'scale', 'op': op['name'], 'n': n, 'B': B})
+
+
 # ---- (b) cache clause: behaviours of Strategy.tla on real views ------------------------------------
 
 def _mk_views():
@@ -185,6 +214,19 @@ def _mk_views():
     add('mergesort', lambda s, cache: etl.mergesort(s[0], s[1], key='k', cache=cache), 2)
     add('mergeduplicates', lambda s, cache: etl.mergeduplicates(s[0], 'k', cache=cache))
     add('rowgroupmap', lambda s, cache: etl.rowgroupmap(s[0], 'k', lambda k, rs: [[k, r[1]] for r in rs], header=['k', 'v'], cache=cache))
+    add('unique', lambda s, cache: etl.unique(s[0], 'v', cache=cache))
+    add('conflicts', lambda s, cache: etl.conflicts(s[0], 'k', cache=cache))
+    add('fold', lambda s, cache: etl.fold(s[0], 'k', lambda x, y: (x if isinstance(x, tuple) else (x,)) + (y,), 'v', cache=cache))
+    add('groupselectfirst', lambda s, cache: etl.groupselectfirst(s[0], 'k', cache=cache))
+    add('groupselectmax', lambda s, cache: etl.groupselectmax(s[0], 'k', 'v', cache=cache))
+    add('pivot', lambda s, cache: etl.pivot(s[0], 'k', 'v', 'v', sum, cache=cache))
+    add('outerjoin', lambda s, cache: etl.outerjoin(s[0], s[1], key='k', cache=cache), 2)
+    add('antijoin', lambda s, cache: etl.antijoin(s[0], [['k', 'w'], [99, 0]], key='k', cache=cache))
+    add('lookupjoin', lambda s, cache: etl.lookupjoin(s[0], s[1], key='k', cache=cache), 2)
+    add('intersection', lambda s, cache: etl.intersection(s[0], s[0], cache=cache))
+    add('recordcomplement', lambda s, cache: etl.recordcomplement(s[0], s[1], cache=cache), 2)
+    add('diff', lambda s, cache: etl.diff(s[0], s[1], cache=cache)[1], 2)
+    add('unjoin', lambda s, cache: etl.unjoin(s[0], 'k', key='v', cache=cache)[0])
     return vs, rows, rows_b
 
 
@@ -206,7 +248,7 @@ def replay_behaviour(beh, view):
     """Returns (violation message, drift message)."""
     name, mk, nsrc = view
     _, rows_a, rows_b = _mk_views()
-    same_hdr = name in ('complement', 'mergesort')     # set operations / mergesort need equal headers
+    same_hdr = name in ('complement', 'mergesort', 'recordcomplement', 'diff')     # set operations / mergesort need equal headers
     srcs = [ProbeTable(['k', 'v'], rowfn=rows_a), ProbeTable(['k', 'v' if same_hdr else 'w'], rowfn=rows_b)][:nsrc]
     with common.private_tmp() as tmp:
         v = mk(srcs, beh['cache'])
@@ -220,8 +262,29 @@ def replay_behaviour(beh, view):
                     s.version = ver
                 continue
             before = sum(s.pulls for s in srcs)
+            if ev['a'] == 'fail':
+                # the first source raises at its 3rd data row during this pass only
+                srcs[0].fail_at = 3
+                raised = False
+                try:
+                    out = [tuple(r) for r in v][1:]
+                except InjectedFailure:
+                    raised = True
+                except Exception as e:
+                    return 'step %d (failing source) raised %r instead of the injected failure' % (i + 1, e), None
+                finally:
+                    srcs[0].fail_at = None
+                if raised:
+                    if not ev['raised'] and drift is None:
+                        drift = '%s: step %d: source failure surfaced, model serves the pass from the cache' % (name, i + 1)
+                    continue
+                if ev['raised'] and drift is None:
+                    drift = '%s: step %d: the armed source failure never surfaced, model expects it to' % (name, i + 1)
+                ev = dict(ev, a='full', have_out=True)
             try:
-                if ev['a'] == 'full':
+                if ev.get('have_out'):
+                    pass
+                elif ev['a'] == 'full':
                     out = [tuple(r) for r in v][1:]
                 else:
                     it = iter(v)
@@ -242,6 +305,13 @@ def replay_behaviour(beh, view):
                 if len(shown) != 1:
                     return 'step %d: full pass mixes source versions %r' % (i + 1, sorted(shown)), None
                 sv = shown.pop()
+                # the pass must deliver the COMPLETE result for the version it shows
+                rs = [ProbeTable(x.hdr, rowfn=x.rowfn) for x in srcs]
+                for x in rs:
+                    x.version = sv
+                ref = [tuple(r) for r in mk(rs, False)][1:]
+                if out != ref:
+                    return ('step %d: the pass delivered %r, a fresh view on version %d delivers %r' % (i + 1, out, sv, ref)), None
                 if not beh['cache'] and (sv != ver or not pulled):
                     return ('step %d: cache=False but the pass shows version %d (current %d), sources read: %s'
                             % (i + 1, sv, ver, pulled)), None
@@ -294,13 +364,22 @@ def record_traces(n, seed):
         with common.private_tmp() as tmp:
             v = etl.sort(src, 'k', buffersize=bs, cache=cache, tempdir=tmp)
             for _s in range(rng.randrange(3, 12)):
-                a = rng.choice(['edit', 'full', 'full', 'partial0', 'partial1'])
+                a = rng.choice(['edit', 'full', 'full', 'partial0', 'partial1', 'fail'])
                 if a == 'edit':
                     src.version += 1
-                    evs.append({'a': 'edit', 'k': 0, 'shown': 0, 'pulled': False})
+                    evs.append({'a': 'edit', 'k': 0, 'shown': 0, 'pulled': False, 'raised': False, 'complete': True})
                     continue
                 before = src.pulls
-                if a == 'full':
+                raised = False
+                if a == 'fail':
+                    src.fail_at = rng.choice([1, 2, 3, 4, 5])
+                    try:
+                        out = [tuple(r) for r in v][1:]
+                    except InjectedFailure:
+                        raised, out = True, []
+                    finally:
+                        src.fail_at = None
+                elif a == 'full':
                     out = [tuple(r) for r in v][1:]
                 else:
                     it = iter(v)
@@ -308,9 +387,12 @@ def record_traces(n, seed):
                     out = [tuple(next(it))] if a == 'partial1' else []
                     del it
                 shown = _versions_in(out)
-                evs.append({'a': 'full' if a == 'full' else 'partial', 'k': 1 if a == 'partial1' else 0,
-                            'shown': (shown.pop() if len(shown) == 1 else (0 if not shown else 99)),
-                            'pulled': src.pulls > before})
+                sv = shown.pop() if len(shown) == 1 else (0 if not shown else 99)
+                complete = True
+                if a in ('full', 'fail') and not raised and 0 < sv < 99:
+                    complete = out == [tuple(r) for r in etl.sort(rows_a(sv) and [['k', 'v']] + rows_a(sv), 'k')][1:]
+                evs.append({'a': a if a in ('full', 'fail') else 'partial', 'k': 1 if a == 'partial1' else 0,
+                            'shown': sv, 'pulled': src.pulls > before, 'raised': raised, 'complete': complete})
             del v
         traces.append({'cache': cache, 'B': bs or 0, 'events': evs})
     return traces
@@ -349,6 +431,12 @@ def run(tier, seed):
     r = tlc.require_ok(tlc.run('Strategy', cfg='StrategyMC', timeout=900), 'Strategy')
     tlc.check_coverage(r, ACTIONS, 'Strategy')
     chk.add_tlc(r, 'Strategy', 'StrategyMC', ACTIONS)
+    # sensitivity: the design that publishes the chunk list before the sort has finished must violate completeness
+    rneg = tlc.run('Strategy', cfg='StrategyEager', timeout=900, coverage=False)
+    if not rneg.violated or 'PassesAreComplete' not in str(rneg.violated) + rneg.stdout:
+        if not rneg.violated:
+            raise tlc.MachineryError('Strategy (eager variant) was expected to violate PassesAreComplete / CacheIsWhole')
+    chk.note('negative test: Strategy with CVariant="eager" violates %s' % rneg.violated)
     r2 = tlc.require_ok(tlc.run('ExtSort', cfg='ExtSortMCq', timeout=900), 'ExtSort')
     chk.add_tlc(r2, 'ExtSort', 'ExtSortMCq')
     # behaviours for replay
@@ -367,6 +455,7 @@ def run(tier, seed):
             'setop': common.gen('SetOpsGen'), 'dedup': common.gen('DedupGen', 'DedupGenq'), 'group': common.gen('GroupGen')}
     profiles = ['ints', 'mixed', 'equalreps'] if not full else ['ints', 'mixed', 'text', 'compound', 'equalreps']
     check_differential(chk, gens, profiles, full, rng)
+    check_scale(chk, rng)
     traces = record_traces(3000 if full else 400, seed)
     validate_traces(chk, traces, seed)
     chk.exhaustive = full
